@@ -306,11 +306,27 @@ class GuardEngine:
                 return (st[0], st[1] | frozenset(new))
             return st
 
+        def atoms(c, sense):
+            """Sub-conditions whose truth value is known on the side where `c` evaluates to `sense`."""
+            k = c.get("k")
+            if k == "Bin" and c.get("op") == "||":
+                return atoms(c["a"], False) + atoms(c["b"], False) if not sense else []
+            if k == "Bin" and c.get("op") == "&&":
+                return atoms(c["a"], True) + atoms(c["b"], True) if sense else []
+            if k == "Un" and c.get("op") == "!":
+                return atoms(c["e"], not sense)
+            if k == "Block" and not c.get("stmts") and c.get("expr"):
+                return atoms(c["expr"], sense)
+            return [c]
+
         def guard(n, st, sense_or_arm, kind):
             if kind == "if":
                 sibling = n.get("el") if sense_or_arm else n["th"]
                 if sibling is not None and eng.refuses(sibling):
-                    return add_facts(st, n["c"])
+                    ats = atoms(n["c"], bool(sense_or_arm))
+                    if not ats:
+                        return st
+                    return add_facts(st, {"k": "Tup", "es": ats})
                 return st
             if kind == "match":
                 arm = sense_or_arm
@@ -381,8 +397,12 @@ class GuardEngine:
                     return mk(ids, st[1])
                 return st
             if k == "Macro" and n.get("name", "").startswith("assert"):
-                fake = {"k": "Tup", "es": n["args"]}
-                return add_facts(st, fake)
+                ats = []
+                if n.get("name") == "assert" and n["args"]:
+                    ats = atoms(n["args"][0], True)
+                elif n.get("name") in ("assert_eq", "assert_ne"):
+                    ats = n["args"][:2]
+                return add_facts(st, {"k": "Tup", "es": ats}) if ats else st
             if k in ("Call", "MCall"):
                 return do_call(n, st)
             if k == "Ret":
